@@ -68,7 +68,7 @@ func (e *FnExec) constVal(c *ssa.Const) *Term {
 		}
 	case "Bool":
 		return BoolLit(constant.BoolVal(c.Value))
-	case "String":
+	case StrSort:
 		return StrLit(constant.StringVal(c.Value))
 	case "F64":
 		return f64Const(c.Value.ExactString())
@@ -170,29 +170,6 @@ func (e *FnExec) alloc(st *State) *Term {
 
 func fbin(name string, a, b *Term) *Term  { return UF(name, "F64", a, b) }
 func fcmp(name string, a, b *Term) *Term  { return UF(name, "Bool", a, b) }
-func strLen(s *Term) *Term {
-	if s.Op == "str" {
-		return IntLit(int64(len(s.Name)))
-	}
-	return App("str.len", "Int", s)
-}
-func strAt(s, i *Term) *Term { return App("str.to_code", "Int", App("str.at", "String", s, i)) }
-func strSub(s, lo, hi *Term) *Term {
-	return App("str.substr", "String", s, lo, Sub(hi, lo))
-}
-func strCat(a, b *Term) *Term {
-	if a.Op == "str" && a.Name == "" {
-		return b
-	}
-	if b.Op == "str" && b.Name == "" {
-		return a
-	}
-	if a.Op == "str" && b.Op == "str" {
-		return StrLit(a.Name + b.Name)
-	}
-	return App("str.++", "String", a, b)
-}
-
 func bitOf(x *Term, b int) *Term {
 	return EMod(EDiv(x, BigLit(pow2(b))), IntLit(2))
 }
@@ -352,18 +329,18 @@ func (e *FnExec) binop(st *State, op token.Token, x, y *Term, xt types.Type, pos
 		case token.GEQ:
 			return fcmp("fle", y, x)
 		}
-	case "String":
+	case StrSort:
 		switch op {
 		case token.ADD:
 			return strCat(x, y)
 		case token.LSS:
-			return App("str.<", "Bool", x, y)
+			return strLt(x, y)
 		case token.LEQ:
-			return App("str.<=", "Bool", x, y)
+			return strLe(x, y)
 		case token.GTR:
-			return App("str.<", "Bool", y, x)
+			return strLt(y, x)
 		case token.GEQ:
-			return App("str.<=", "Bool", y, x)
+			return strLe(y, x)
 		}
 	case "Bool":
 		switch op {
@@ -563,6 +540,9 @@ func (e *FnExec) execInstr(st *State, ins ssa.Instruction) {
 		e.setEdge(st, x.Block(), 0, st.reach)
 	case *ssa.If:
 		c := e.term(st, x.Cond)
+		if c != True && c != False {
+			e.branchAtoms = append(e.branchAtoms, c)
+		}
 		e.setEdge(st, x.Block(), 0, And(st.reach, c))
 		e.setEdge(st, x.Block(), 1, And(st.reach, Not(c)))
 	default:
@@ -706,6 +686,7 @@ func (e *FnExec) mapUpdate(st *State, x *ssa.MapUpdate) {
 	v := e.term(st, x.Value)
 	e.assert(st, "mapwrite", Neq(m, NilLoc), x.Pos(), "assignment to entry in nil map", "")
 	d, ds, vc, vs := mapClasses(t)
+	e.checkLoopFrames(st, d, m, x.Pos())
 	dm := e.getMem(st, d, ds)
 	vm := e.getMem(st, vc, vs)
 	lm := e.getMem(st, mapLenClass, mapLenSort)
@@ -773,7 +754,7 @@ func (e *FnExec) convert(st *State, x *ssa.Convert) {
 		e.set(x, r)
 	case fs == "F64" && ts == "F64":
 		e.set(x, v)
-	case fs == "String" && ts == "Slice":
+	case fs == StrSort && ts == "Slice":
 		// []byte(s): fresh array whose bytes equal the string's
 		arr := e.alloc(st)
 		n := strLen(v)
@@ -791,13 +772,13 @@ func (e *FnExec) convert(st *State, x *ssa.Convert) {
 			}
 		}
 		e.set(x, MkSlice(arr, IntLit(0), n, n))
-	case fs == "Slice" && ts == "String":
-		r := Fresh("str", "String")
+	case fs == "Slice" && ts == StrSort:
+		r := Fresh("str", StrSort)
 		e.addFact(st, Eq(strLen(r), SLen(v)))
 		e.note("string([]byte) conversion: only the length is modelled")
 		e.set(x, r)
-	case fs == "Int" && ts == "String":
-		r := UF("runestr", "String", v)
+	case fs == "Int" && ts == StrSort:
+		r := UF("runestr", StrSort, v)
 		e.set(x, r)
 	case fs == ts:
 		e.set(x, v)
@@ -823,7 +804,7 @@ func (e *FnExec) typeAssert(st *State, x *ssa.TypeAssert) {
 		return
 	}
 	ok := Eq(ITag(v), IntLit(int64(typeID(at))))
-	un := UF("unbox_"+sortOf(at), sortOf(at), v)
+	un := Unbox(v, sortOf(at))
 	e.addFact(st, Imp(ok, e.typeFacts(at, un, st)))
 	if x.CommaOk {
 		e.vals[x] = Val{Tuple: []Val{{T: Ite(ok, un, zeroOf(at))}, {T: ok}}}
